@@ -230,6 +230,40 @@ def F29():
     return r != ("int", ("object", 1, 2)), f"f(1, 2) with call_next(y=y, x=x): {str(r)[:90]}"
 
 
+def F39():
+    """C09: a method that uses recurse and a class-private attribute loses the name mangling when re-compiled."""
+    from ovld import OvldBase
+
+    class K(OvldBase):
+        def __init__(self):
+            self.__secret = 10
+
+        def m(self, x: int):
+            return self.__secret + x
+
+        def m(self, x: list):
+            return [recurse(y) for y in x] + [self.__secret]
+
+    r = (outcome(lambda: K().m(1)), outcome(lambda: K().m([1, 2])))
+    return r[1] != [11, 12, 10], f"K().m(1) -> {r[0]!r}; K().m([1, 2]) -> {str(r[1])[:90]}"
+
+
+def F40():
+    """C06: a type[...] method that is not applicable to the call changes which method a class argument reaches."""
+    import abc
+    import collections.abc
+
+    @ovld
+    def g(x: abc.ABCMeta): return "meta"
+    @ovld
+    def g(x: object): return "obj"
+    before = g(collections.abc.Sequence)
+    @g.register
+    def g(x: type[int]): return "type[int]"
+    after = outcome(lambda: g(collections.abc.Sequence))
+    return before != after, f"g(Sequence) before / after registering g(x: type[int]): {before!r} / {after!r}"
+
+
 def F38():
     """C12: a union / an intersection against a value-dependent type does not compare to mirror-image answers."""
     from ovld.mro import typeorder
@@ -476,7 +510,7 @@ def F20():
 
 
 ALL = ["F01", "F02", "F03", "F04", "F05", "F06", "F07", "F08", "F09", "F10", "F11",
-       "F12", "F13", "F14", "F15", "F16", "F17", "F18", "F19", "F20", "F21", "F22", "F29", "F33", "F38"]
+       "F12", "F13", "F14", "F15", "F16", "F17", "F18", "F19", "F20", "F21", "F22", "F29", "F33", "F38", "F39", "F40"]
 
 if __name__ == "__main__":
     ids = sys.argv[1:] or ALL
